@@ -4,6 +4,8 @@ package main
 
 import (
 	"fmt"
+	"go/token"
+	"sort"
 	"strings"
 
 	"golang.org/x/tools/go/ssa"
@@ -631,51 +633,10 @@ func roleCallsRec(p *Prog, e *Env, role string, above []callLevel, depth int) []
 				continue
 			}
 			rc := roleCall{call: call, acct: acct, chain: chain}
-			savesRoles := false
-			for _, bb := range sc.Blocks {
-				for _, i2 := range bb.Instrs {
-					c2, ok := i2.(*ssa.Call)
-					if !ok {
-						continue
-					}
-					if bi, ok := c2.Call.Value.(*ssa.Builtin); ok && bi.Name() == "append" {
-						if strings.HasSuffix(sub.Term(c2.Call.Args[0]), ".Roles") && strings.Contains(appendedElems(sub, c2.Call.Args[1]), q) {
-							rc.adds = true
-						}
-					}
-					if s2 := c2.Call.StaticCallee(); s2 != nil {
-						if isRoleRemover(s2) && strings.Contains(sub.termList(c2.Call.Args)+appendedElemsAll(sub, c2.Call.Args), q) {
-							rc.deletes = true
-							// the shortened list is persisted: after the removal no success return of this routine is reachable
-							// without a call that writes storage (a guard "nothing left, do not write" would keep the role stored)
-							saves := map[ssa.Instruction]bool{}
-							for _, b3 := range sc.Blocks {
-								for _, i3 := range b3.Instrs {
-									if c3, ok := i3.(*ssa.Call); ok && c3 != c2 {
-										if s3 := c3.Call.StaticCallee(); s3 != nil && reachesInvoke(p, s3, "AccountDataHandler.SaveKeyValue", 0) {
-											saves[i3] = true
-										}
-										if InvokeName(c3) == "AccountDataHandler.SaveKeyValue" {
-											saves[i3] = true
-										}
-									}
-								}
-							}
-							rc.removalSaved = len(saves) > 0
-							for _, r3 := range returnsOf(sc) {
-								if isSuccessReturn(r3) && reachesAvoiding(sc, c2, r3, saves, errorEdgesOfFn(sc)) {
-									if errCallOf(retval(r3, len(r3.Results)-1)) == nil || !saves[ssa.Instruction(errCallOf(retval(r3, len(r3.Results)-1)))] {
-										rc.removalSaved = false
-									}
-								}
-							}
-						}
-						if reachesInvoke(p, s2, "AccountDataHandler.SaveKeyValue", 0) {
-							savesRoles = true
-						}
-					}
-				}
-			}
+			// what happens in the routine and below it (helpers, function literals handed to a generic load-modify-save helper)
+			info := roleOpsBelow(p, sub, q, 0)
+			rc.adds, rc.deletes, rc.removalSaved = info.adds, info.deletes, info.deletes && info.removalSaved
+			savesRoles := info.saves
 			if savesRoles && (rc.adds || rc.deletes) {
 				out = append(out, rc)
 			} else if depth < 3 && reachesInvoke(p, sc, "AccountDataHandler.SaveKeyValue", 0) {
@@ -684,6 +645,113 @@ func roleCallsRec(p *Prog, e *Env, role string, above []callLevel, depth int) []
 		}
 	}
 	return out
+}
+
+type roleOpInfo struct {
+	adds, deletes, saves bool
+	removalSaved         bool // after the removal no success return (of the function that contains it, and of every caller up to the routine) is reachable without a storage write
+}
+
+// roleOpsBelow: does env's function, or anything it calls (helpers, function literals), append the role to a role list,
+// remove it from one, write storage — and is a removal always followed by a write.
+func roleOpsBelow(p *Prog, env *Env, q string, depth int) roleOpInfo {
+	var info roleOpInfo
+	if depth > 4 {
+		return info
+	}
+	fn := env.Fn
+	removers := map[ssa.Instruction]bool{} // calls that remove (here or below) and are not known to save below
+	savers := map[ssa.Instruction]bool{}
+	savedBelow := true
+	for _, bb := range fn.Blocks {
+		for _, i2 := range bb.Instrs {
+			c2, ok := i2.(*ssa.Call)
+			if !ok {
+				continue
+			}
+			if bi, ok := c2.Call.Value.(*ssa.Builtin); ok {
+				if bi.Name() == "append" && strings.HasSuffix(env.Term(c2.Call.Args[0]), ".Roles") && strings.Contains(appendedElems(env, c2.Call.Args[1]), q) {
+					info.adds = true
+				}
+				continue
+			}
+			if InvokeName(c2) == "AccountDataHandler.SaveKeyValue" {
+				info.saves = true
+				savers[i2] = true
+				continue
+			}
+			var callees []*ssa.Function
+			if sc := env.singleCallee(c2); sc != nil {
+				callees = []*ssa.Function{sc}
+			}
+			for _, s2 := range callees {
+				if len(s2.Blocks) == 0 || s2.Pkg == nil || !strings.HasPrefix(s2.Pkg.Pkg.Path(), modPath) {
+					continue
+				}
+				if isRoleRemover(s2) && strings.Contains(env.termList(c2.Call.Args)+appendedElemsAll(env, c2.Call.Args), q) {
+					info.deletes = true
+					removers[i2] = true
+					continue
+				}
+				below := roleOpsBelow(p, env.Sub(c2, s2), q, depth+1)
+				if below.adds {
+					info.adds = true
+				}
+				if below.saves {
+					info.saves = true
+					savers[i2] = true
+				}
+				if below.deletes {
+					info.deletes = true
+					if below.saves && below.removalSaved {
+						// removed and written inside: nothing more to ask here
+					} else {
+						removers[i2] = true
+						if below.saves && !below.removalSaved {
+							savedBelow = false
+						}
+					}
+				}
+			}
+		}
+	}
+	info.removalSaved = info.deletes && savedBelow
+	if len(removers) > 0 {
+		cut := errorEdgesOfFn(fn)
+		for ed, fs := range env.EdgeFacts() {
+			for _, f := range fs {
+				if f.Lin && f.LE.isConst() && f.LE.k < 0 {
+					cut[ed] = true // not taken in this calling context (e.g. the literal constantly returns "must save")
+				}
+			}
+		}
+		for rm := range removers {
+			barriers := map[ssa.Instruction]bool{}
+			for sv := range savers {
+				if sv != rm {
+					barriers[sv] = true
+				}
+			}
+			if len(barriers) == 0 {
+				info.removalSaved = false
+			}
+			for _, r3 := range returnsOf(fn) {
+				if !isSuccessReturn(r3) && lastIsError(fn) {
+					continue
+				}
+				if reachesAvoiding(fn, rm, r3, barriers, cut) {
+					if lastIsError(fn) {
+						ec := errCallOf(retval(r3, len(r3.Results)-1))
+						if ec != nil && barriers[ssa.Instruction(ec)] {
+							continue // `return save(…)`
+						}
+					}
+					info.removalSaved = false
+				}
+			}
+		}
+	}
+	return info
 }
 
 // isRoleRemover: a module function that shrinks a role list (stores a re-slice into the Roles field of an ESDTRoles).
@@ -766,8 +834,44 @@ func collectHexArgs(e *Env, v ssa.Value, out *[]string, depth int) {
 		collectHexArgs(e, x.X, out, depth+1)
 		collectHexArgs(e, x.Y, out, depth+1)
 	case *ssa.Call:
-		if CalleeName(x) == "encoding/hex.EncodeToString" {
-			*out = append(*out, e.Term(x.Call.Args[0]))
+		switch CalleeName(x) {
+		case "encoding/hex.EncodeToString":
+			arg := x.Call.Args[0]
+			// the element of a literal list that a loop walks: one argument per element, in order
+			if ld, ok := arg.(*ssa.UnOp); ok && ld.Op == token.MUL {
+				if ia, ok := ld.X.(*ssa.IndexAddr); ok {
+					if _, isConst := ia.Index.(*ssa.Const); !isConst {
+						if els := sliceLiteralElems(e, ia.X); len(els) > 0 {
+							*out = append(*out, els...)
+							return
+						}
+					}
+				}
+			}
+			*out = append(*out, e.Term(arg))
+		case "(*bytes.Buffer).Bytes", "(*bytes.Buffer).String", "(*strings.Builder).String":
+			// a local buffer: the arguments written into it, in program order
+			al, ok := x.Call.Args[0].(*ssa.Alloc)
+			if !ok || al.Referrers() == nil {
+				return
+			}
+			var ws []*ssa.Call
+			for _, ref := range *al.Referrers() {
+				if wc, ok := ref.(*ssa.Call); ok && len(wc.Call.Args) == 2 && wc.Call.Args[0] == ssa.Value(al) {
+					if n := CalleeName(wc); strings.HasSuffix(n, ".WriteString") || strings.HasSuffix(n, ".Write") {
+						ws = append(ws, wc)
+					}
+				}
+			}
+			sort.Slice(ws, func(i, j int) bool {
+				if ws[i].Block().Index != ws[j].Block().Index {
+					return ws[i].Block().Index < ws[j].Block().Index
+				}
+				return indexIn(ws[i]) < indexIn(ws[j])
+			})
+			for _, wc := range ws {
+				collectHexArgs(e, wc.Call.Args[1], out, depth+1)
+			}
 		}
 	}
 }
